@@ -8,7 +8,7 @@ ROOT = os.path.dirname(os.path.dirname(os.path.abspath(__file__)))
 # id -> (category, technique, level text, level note, design ref)
 P = {
  "C01": ("exploration", "property-based testing (proptest): generated pipeline round trip against a reference view model",
-         "Generated-input search: 32k (quick) / 1.6M (thorough) issue->present->verify pipelines over generated claim trees, strategies, type-consistent selections, formats, algorithms, decoys and key binding; the verified claims are compared with an independently computed view (marking + selection + view model written from the property text). Held on everything explored; no proof of absence.",
+         "Generated-input search: 32k (quick) / 1.6M (thorough) issue->present->verify pipelines over generated claim trees, strategies, type-consistent selections, formats, algorithms, decoys and key binding, on fresh holders / issuers and on instances that served earlier presentations / another subject before; the verified claims are compared with an independently computed view (marking + selection + view model written from the property text). Held on everything explored; no proof of absence.",
          "Trusted: serde_json Value equality, jsonwebtoken/ring signatures, fixed test keys. Library randomness is uncontrolled but irrelevant to the oracle.", "DESIGN.md §4 C01"),
  "C05": ("exploration", "property-based testing (proptest): independent re-derivation of the hidden set from the issued string",
          "Generated-input search: for each generated (claims, strategy incl. odd Custom path lists, decoys, format, holder key) the issued string is decoded with an independent codec and compared with the marking model: reconstruction, exact hidden set, clear-text skeleton, reference counts, digest recomputation, _sd_alg, cnf, decoy placement, '$.' refusal.",
@@ -46,9 +46,9 @@ P = {
  "C08": ("exploration", "differential property-based testing (proptest) of the verifier against a from-scratch implementation of draft-07 §8.1 on harness-signed structures",
          "The harness packs generated trees with its own encoder, applies 0-3 deviations (arity, name type, reserved / colliding names, duplicated digests within / across levels and in disclosed values, malformed _sd and placeholders, _sd_alg, list operations), signs with the test key and compares the verifier with the spec model: MustReject => Err; Claims(v) => Err or exactly v.",
          "Literal reading where the draft is silent (Err always accepted there); nested / non-string _sd_alg and placeholder-looking element values are not asserted.", "DESIGN.md §4 C08"),
- "C09": ("exploration", "property-based testing (proptest) over exp / nbf relative to the wall clock; accept / reject table with a 120 s dead zone",
-         "Generated credentials with exp in {absent, null, string, negative, past} (reject) or future (accept) and nbf in {absent, past} (accept) or future (reject), both formats, with and without key binding, any selection; instants computed at execution time; accepted cases are also compared with the C01 view.",
-         "Harness and verifier read the same clock microseconds apart; no instant within 120 s of a boundary.", "DESIGN.md §4 C09"),
+ "C09": ("exploration", "property-based testing (proptest) over exp / nbf relative to the wall clock, with a harness-controlled clock (preloaded REALTIME shim) for a second verification of the same presentation at a later instant; accept / reject table with a 120 s dead zone",
+         "Generated credentials with exp in {absent, null, string, negative, past} (reject) or future (accept) and nbf in {absent, past} (accept) or future (reject), both formats, with and without key binding, any selection; instants computed at execution time (plus instants at the edges of i32 / u32 / 2^53 / i64 / u64); accepted cases are also compared with the C01 view. Two cases in five: the harness moves the wall clock forward past exp (must now reject) or past nbf (must now accept) and verifies the same presentation again in the same process.",
+         "Harness and verifier read the same clock microseconds apart; no instant within 120 s of a boundary. The clock shim needs cc and LD_PRELOAD (present in this image); without it the second verifications are skipped and counted under the label clock:shim_absent.", "DESIGN.md §4 C09"),
  "C10": ("exploration", "metamorphic property-based testing (proptest): transcoding Compact <-> JSON must not change verifier decisions, claims, or holder selections",
          "Honest and tampered (JWT, disclosures, KB) triples (C02/C03/C04 operators) are rendered in both serialisations (kb_jwt absent / null / string, extra members); the verifier must decide identically and return equal claims, and holders built from both forms must select the same disclosures.",
          "Only triples expressible in both forms; holder panics on odd input belong to C07.", "DESIGN.md §4 C10"),
